@@ -168,7 +168,12 @@ def run_read_traces(chk):
         m = copy.deepcopy(base[1]); m['events'][idx]['muted'] = not m['events'][idx]['muted']; muts.append((base[0], m, 'mute flag flipped'))
         m = copy.deepcopy(base[1]); m['events'][idx]['zone'] = 'z9'; muts.append((base[0], m, 'zone changed'))
         li = [i for i, e in enumerate(base[1]['events']) if e['ev'] == 'line']
-        m = copy.deepcopy(base[1]); m['events'][li[-1]]['scope'] = 999; muts.append((base[0], m, 'scope identity changed'))
+        # a compiled plain line (it opens no scope) whose scope was already seen on an earlier line: a fresh identity there is wrong
+        ev_ = base[1]['events']
+        si = next((i for i in reversed(li) if ev_[i]['comp'] and ev_[i]['k'] in ('i1', 'i2', 'i3', 'byte', 'raw', 'fill')
+                   and any(ev_[j]['scope'] == ev_[i]['scope'] and ev_[j].get('file') == ev_[i].get('file') for j in li if j < i)), None)
+        if si is not None:
+            m = copy.deepcopy(base[1]); m['events'][si]['scope'] = 999; muts.append((base[0], m, 'scope identity changed'))
         r2 = traces.validate_read(chk, muts)
         bad = [l for l, ok, _, _ in r2 if ok]
         chk.notes['read_trace_selftest'] = {'corruptions': [l for l, _, _, _ in r2], 'rejected': len(r2) - len(bad)}
